@@ -17,6 +17,9 @@ package io
 //@   ensures nonnil: result != nil
 //@   ensures seekable_same [C03]: implements(r, "io.ReadSeeker") ==> sbase(result) == sbase(r) && send(result) == send(r)
 //@   ensures plain_origin [C03]: !implements(r, "io.ReadSeeker") ==> sbase(result) == pos(r)
+//@   ensures identity [C03]: implements(r, "v2/internal/io.ByteReadSeeker") ==> result == r
+//@   ensures fresh [C03]: !implements(r, "v2/internal/io.ByteReadSeeker") ==> freshobj(result)
+//@   ensures fresh_kind [C03]: freshobj(result) ==> typeis(result, "*v2/internal/io.discardingReadSeekerPlusByte") || typeis(result, "*v2/internal/io.readSeekerPlusByte")
 
 //@ func (*readerPlusByte).ReadByte
 //@   implements (io.ByteReader).ReadByte
